@@ -11,10 +11,11 @@
    case = ((mode, slow), (channel 1 usable afterwards, channel 2 usable afterwards, close()
            result 0 Ok / 1 ServerClosedConnection 320 / 8 other error / 9 hang, Basic.Cancel
            frames sent for A's tag), (deliveries pushed to B, what B's receiver yielded,
-           disconnected at the end), the same for C, what A's receiver yielded in mode 1) *)
+           disconnected at the end), the same for C, (deliveries pushed to A before it was cancelled, what
+           A's receiver yielded in mode 1)) *)
 From Amq Require Export Lib.Base.
 
-Definition case := ((N * bool) * (bool * bool * N * N) * (list N * list N * bool) * (list N * list N * bool) * list N)%type.
+Definition case := ((N * bool) * (bool * bool * N * N) * (list N * list N * bool) * (list N * list N * bool) * (list N * list N))%type.
 
 Definition t_client_cancelled : N := 1000001.
 Definition t_server_closed_channel : N := 1000004.
@@ -28,7 +29,7 @@ Definition queue_ok (expect got : list N) (disc : bool) (terminal : N) : bool :=
   list_eqb N.eqb got (expect ++ [terminal]) && disc.
 
 Definition oracle_ok (c : case) : bool :=
-  let '((mode, _), (alive1, alive2, close_code, cancels), (eb, gb, db), (ec, gc, dc), a_seen) := c in
+  let '((mode, _), (alive1, alive2, close_code, cancels), (eb, gb, db), (ec, gc, dc), (ea, a_seen)) := c in
   (* dropping a consumer cancels it; cancelling twice sends nothing the second time *)
   (cancels =? 1) &&
   (if mode =? 3 then
@@ -48,12 +49,9 @@ Definition oracle_ok (c : case) : bool :=
    else
      alive1 && alive2 && (close_code =? 0) &&
      queue_ok eb gb db t_client_closed_connection && queue_ok ec gc dc t_client_closed_connection) &&
-  (if mode =? 1 then
-     match rev a_seen with
-     | t :: before => (t =? t_client_cancelled) && forallb (fun x => negb (is_terminal x)) before
-     | [] => false
-     end
-   else true).
+  (* the cancelled consumer itself: every delivery that was queued for it before the cancel is
+     still there, in order - cancelling takes nothing out of the queue -, then ClientCancelled *)
+  (if mode =? 1 then list_eqb N.eqb a_seen (ea ++ [t_client_cancelled]) else true).
 
 Definition model_agrees (c : case) : bool := oracle_ok c.
 Definition model_out (c : case) : bool := oracle_ok c.
